@@ -19,7 +19,7 @@ for d in seeded/*/; do
       if [ "$p" = "C20" ]; then
         REPO=$wt VERIF_OUT=$ev tla/check_c20.sh quick >$ev/out.txt 2>&1; rc=$?
       else
-        bin/govc check -prop $p -tier quick -repo $wt -verif $ev >$ev/out.txt 2>&1; rc=$?
+        bin/govc check -prop $p -tier quick -repo $wt -verif $ev -known /verif/known_findings.txt >$ev/out.txt 2>&1; rc=$?
       fi
       if [ $rc -eq 1 ] && grep -q "^VIOLATION property=$p " $ev/out.txt; then echo "KILLED $(basename $d) by $p"; else echo "SURVIVED $(basename $d) vs $p (exit $rc)"; fail=1; fi
       rm -rf $ev
